@@ -352,6 +352,8 @@ def load_mir(path, crate, funcs=None, consts=None):
     lines = text.split('\n')
     i = 0
     n = len(lines)
+    last_fn = None
+    local_consts = {}
     while i < n:
         line = lines[i]
         kind = None
@@ -384,10 +386,20 @@ def load_mir(path, crate, funcs=None, consts=None):
                 name = _fn_name(hdr)
                 f = Func(name, hdr, _join_multiline(body), crate, 'fn')
                 funcs.setdefault(name, f)
+                if '{closure#' not in name:
+                    last_fn = name
             else:
                 name = _const_name(hdr)
                 f = Func(name, hdr, _join_multiline(body), crate, 'const')
                 consts.setdefault(name, f)
+                if last_fn and re.fullmatch(r'[A-Z][A-Z0-9_]*', name):
+                    # a const item declared inside a function is printed after it under its bare name, but referenced by its path
+                    f2 = Func(last_fn + '::' + name, hdr, _join_multiline(body), crate, 'const')
+                    consts.setdefault(f2.name, f2)
+                    local_consts[name] = f2.name
+                m2 = re.fullmatch(r'([A-Z][A-Z0-9_]*)(::promoted\[\d+\])', name)
+                if m2 and m2.group(1) in local_consts:
+                    consts.setdefault(local_consts[m2.group(1)] + m2.group(2), f)
             i = j
         i += 1
     return funcs, consts
